@@ -91,6 +91,7 @@ pub fn perform(op: &HistOp) -> Result<u64, String> {
                 access_fault: None,
                 honour_fields: false,
                 human_readable: true,
+                typed_requests: false,
             };
             let es = deleg::derive_stream(&c);
             let d = Delivery { fault: fail_at.map(|at| CallFault { at, sticky: false }), ..Delivery::clean(*mode) };
